@@ -30,7 +30,7 @@ pub fn install_panic_hook() {
         };
         let loc = info.location().map(|l| format!("{}:{}", l.file(), l.line())).unwrap_or_default();
         if QUIET.with(|q| q.get()) == 0 {
-            eprintln!("harness panic: {} @ {}", msg, loc);
+            println!("harness panic: {} @ {}", msg, loc);
         }
         LAST_PANIC.with(|p| *p.borrow_mut() = Some(format!("{} @ {}", msg, loc)));
     }));
